@@ -1,6 +1,7 @@
 package main
 
 import (
+	"strconv"
 	"verif/shim/vclock"
 	"time"
 	"fmt"
@@ -38,6 +39,8 @@ type SeqCfg struct {
 	Authenticated bool
 	// BackendWindow: see World.BackendWindow (the host reads only when a segment with Action "hostdrain" says so)
 	BackendWindow int
+	// Segmented: see World.Segmented (one client write per gateway read)
+	Segmented bool
 }
 
 // Seg is one transport segment sent by the client, or a control action.
@@ -47,6 +50,10 @@ type Seg struct {
 	Action string // "" send | "close" client drops its connection(s) | "backend:<hex>" unused
 	Frags  [][]byte
 	NoWait bool // do not wait for quiescence after this segment (burst)
+	// SplitChunk: legacy transport only: the HTTP chunk that carries Bytes arrives in three pieces (chunk size line,
+	// chunk data, trailing CRLF), so that the gateway's read of the data is not shortened by what a buffered reader
+	// happens to hold
+	SplitChunk bool
 	// HostSay != nil: instead of the client sending, the remote desktop host (first backend) writes these bytes
 	// (an empty slice is an empty write: the gateway's read returns no bytes and no error)
 	HostSay []byte
@@ -96,6 +103,7 @@ func RunSeq(cfg SeqCfg, segs []Seg) *SeqResult {
 		res.World = w
 		w.Accept = cfg.Accept
 		w.BackendWindow = cfg.BackendWindow
+		w.Segmented = cfg.Segmented
 		if len(cfg.BackendSay) > 0 {
 			w.OnBackend = func(b *Backend) {
 				for _, s := range cfg.BackendSay {
@@ -168,6 +176,10 @@ func RunSeq(cfg SeqCfg, segs []Seg) *SeqResult {
 				c.CloseClient()
 			case len(s.Frags) > 0:
 				c.SendFragments(s.Frags...)
+			case s.SplitChunk && c.Kind == "legacy":
+				c.In.Write([]byte(strconv.FormatInt(int64(len(s.Bytes)), 16) + "\r\n"))
+				c.In.Write(s.Bytes)
+				c.In.Write([]byte("\r\n"))
 			default:
 				c.SendSegment(s.Bytes)
 			}
